@@ -14,8 +14,8 @@
 EXTENDS Overlay, Json, IOUtils
 Rec == ndJsonDeserialize(IOEnv.TRACE)
 
-VARIABLES l, hasUpper, B, fresh, view, lowers, upraw, preup, digests, exp, lastop, div, nfail
-vars == <<l, hasUpper, B, fresh, view, lowers, upraw, preup, digests, exp, lastop, div, nfail>>
+VARIABLES l, hasUpper, B, fresh, view, lowers, upraw, preup, digests, exp, lastop, div, nfail, overwh
+vars == <<l, hasUpper, B, fresh, view, lowers, upraw, preup, digests, exp, lastop, div, nfail, overwh>>
 
 Viol(sig, detail) == PrintT(<<"VIOL", sig, l, detail>>)
 Markers == {"trusted.overlay.opaque", "user.overlay.opaque", "user.fuseoverlayfs.opaque"}
@@ -55,7 +55,9 @@ DiffKind(a, b) ==
      ELSE (IF F("m") THEN "m" ELSE "") \o (IF F("c") THEN "c" ELSE "") \o (IF F("tg") THEN "g" ELSE "") \o (IF F("x") THEN "x" ELSE "")
 
 OpName == lastop.op
-OpClass == IF lastop.op = "init" THEN "initial" ELSE PreClass(preup, lowers, lastop.p)
+\* "dirw": a non-opaque upper directory that an earlier mkdir of this run made over an upper whiteout
+UpClass == LET c == EntryClass(preup, lastop.p) IN IF c = "dir" /\ lastop.ow THEN "dirw" ELSE c
+OpClass == IF lastop.op = "init" THEN "initial" ELSE "upper-" \o UpClass \o "-lower-" \o TopLower(lowers, lastop.p)
 Sig(prop, what) == prop \o "|" \o OpName \o "|" \o what \o "|" \o OpClass
 
 \* ids of the re-synchronised view: keep the identity the A view has for the same kind of node
@@ -66,7 +68,7 @@ Resync(logged, base) ==
 
 Init == /\ l = 1 /\ hasUpper = TRUE /\ B = 1 /\ fresh = TRUE /\ view = EmptyTree /\ lowers = <<>>
         /\ upraw = EmptyTree /\ preup = EmptyTree /\ digests = [k \in 1..4 |-> ""]
-        /\ exp = Free(EmptyTree) /\ lastop = [op |-> "init", p |-> <<>>, st |-> 0, src |-> <<>>] /\ div = {} /\ nfail = 0
+        /\ exp = Free(EmptyTree) /\ lastop = [op |-> "init", p |-> <<>>, st |-> 0, src |-> <<>>, ow |-> FALSE] /\ div = {} /\ nfail = 0 /\ overwh = {}
 
 Layers == IF hasUpper THEN <<upraw>> \o lowers ELSE lowers
 
@@ -102,6 +104,8 @@ CheckRestarted(rows) ==
       new == DiffPaths(R, V) \ Covered(div)
   IN IF ~RowsOK(rows) THEN Viol(Sig("C11", "rows-malformed"), rows)
      ELSE IF new = {} THEN TRUE
+     \* an operation on a path around which the instance already diverged from its disk state (reported then)
+     ELSE IF lastop.op # "init" /\ (Related(lastop.p, div) \/ (lastop.src # <<>> /\ Related(lastop.src, div))) THEN TRUE
      ELSE Viol(Sig("C11", "restart-differs-" \o DiffKind(R, V)), <<lastop, [p \in new |-> [restarted |-> R[p], live |-> V[p]]]>>)
 
 CheckLower(r) ==
@@ -116,41 +120,46 @@ Step ==
      CASE r.e = "Reset" ->
             /\ hasUpper' = r.upper /\ B' = r.B /\ fresh' = TRUE /\ view' = EmptyTree /\ lowers' = <<>>
             /\ upraw' = EmptyTree /\ preup' = EmptyTree /\ digests' = [k \in 1..4 |-> ""]
-            /\ exp' = Free(EmptyTree) /\ lastop' = [op |-> "init", p |-> <<>>, st |-> 0, src |-> <<>>] /\ div' = {} /\ nfail' = 0
+            /\ exp' = Free(EmptyTree) /\ lastop' = [op |-> "init", p |-> <<>>, st |-> 0, src |-> <<>>, ow |-> FALSE] /\ div' = {} /\ nfail' = 0 /\ overwh' = {}
        [] r.e = "Layers" ->
             /\ lowers' = [k \in DOMAIN r.lowers |-> TreeOf(r.lowers[k], TRUE)]
             /\ upraw' = TreeOf(r.upper, TRUE)
-            /\ UNCHANGED <<hasUpper, B, fresh, view, preup, digests, exp, lastop, div, nfail>>
+            /\ UNCHANGED <<hasUpper, B, fresh, view, preup, digests, exp, lastop, div, nfail, overwh>>
        [] r.e = "BuildError" ->
             /\ TRUE = Viol("C10|init|build-error|initial", r)
-            /\ UNCHANGED <<hasUpper, B, fresh, view, lowers, upraw, preup, digests, exp, lastop, div, nfail>>
+            /\ UNCHANGED <<hasUpper, B, fresh, view, lowers, upraw, preup, digests, exp, lastop, div, nfail, overwh>>
        [] r.e = "View" ->
             /\ TRUE = (IF fresh THEN CheckInitialView(r.rows) ELSE CheckView(r.rows, lastop.st))
             /\ view' = IF ~RowsOK(r.rows) THEN view
                        ELSE IF fresh THEN TreeOf(r.rows, FALSE)
                        ELSE Resync(TreeOf(r.rows, FALSE), IF lastop.st = 0 /\ lastop.op # "rename" THEN exp.v ELSE view)
-            /\ UNCHANGED <<hasUpper, B, fresh, lowers, upraw, preup, digests, exp, lastop, div, nfail>>
+            /\ UNCHANGED <<hasUpper, B, fresh, lowers, upraw, preup, digests, exp, lastop, div, nfail, overwh>>
        [] r.e = "Restarted" ->
             /\ TRUE = CheckRestarted(r.rows)
             /\ div' = IF RowsOK(r.rows) THEN DiffPaths(ProjView(TreeOf(r.rows, FALSE)), ProjView(view)) ELSE div
-            /\ UNCHANGED <<hasUpper, B, fresh, view, lowers, upraw, preup, digests, exp, lastop, nfail>>
+            /\ UNCHANGED <<hasUpper, B, fresh, view, lowers, upraw, preup, digests, exp, lastop, nfail, overwh>>
        [] r.e = "Lower" ->
             /\ TRUE = CheckLower(r)
             /\ digests' = IF digests[r.k] = "" THEN [digests EXCEPT ![r.k] = r.digest] ELSE digests
-            /\ UNCHANGED <<hasUpper, B, fresh, view, lowers, upraw, preup, exp, lastop, div, nfail>>
+            /\ UNCHANGED <<hasUpper, B, fresh, view, lowers, upraw, preup, exp, lastop, div, nfail, overwh>>
        [] r.e = "UpperRaw" ->
             /\ upraw' = TreeOf(r.rows, TRUE) /\ fresh' = FALSE
-            /\ UNCHANGED <<hasUpper, B, view, lowers, preup, digests, exp, lastop, div, nfail>>
+            /\ UNCHANGED <<hasUpper, B, view, lowers, preup, digests, exp, lastop, div, nfail, overwh>>
        [] r.e = "Op" ->
             /\ preup' = upraw
             /\ exp' = AOp(view, OpOf(r), hasUpper, <<"n", ToString(l)>>)
-            /\ lastop' = [op |-> r.op, p |-> r.p, st |-> r.st, src |-> IF Has(r, "src") THEN r.src ELSE <<>>]
+            /\ lastop' = [op |-> r.op, p |-> r.p, st |-> r.st, src |-> IF Has(r, "src") THEN r.src ELSE <<>>, ow |-> r.p \in overwh]
             /\ nfail' = IF r.st # 0 THEN nfail + 1 ELSE nfail
+            \* history: directories made (successfully) over an upper whiteout, until they are removed
+            /\ overwh' = IF r.st # 0 \/ r.p \notin Paths THEN overwh
+                          ELSE IF r.op = "mkdir" /\ EntryClass(upraw, r.p) = "wh" THEN overwh \cup {r.p}
+                          ELSE IF r.op \in {"rmdir", "unlink", "mkdir"} THEN {q \in overwh : q # r.p /\ ~IsAncestor(r.p, q)}
+                          ELSE overwh
             /\ UNCHANGED <<hasUpper, B, fresh, view, lowers, upraw, digests, div>>
-       [] OTHER -> /\ TRUE = Viol("C10|event|unknown|-", r) /\ UNCHANGED <<hasUpper, B, fresh, view, lowers, upraw, preup, digests, exp, lastop, div, nfail>>
+       [] OTHER -> /\ TRUE = Viol("C10|event|unknown|-", r) /\ UNCHANGED <<hasUpper, B, fresh, view, lowers, upraw, preup, digests, exp, lastop, div, nfail, overwh>>
   /\ l' = l + 1
 Done == l = Len(Rec) + 1 /\ PrintT(<<"ACCEPTED", Len(Rec)>>) /\ l' = l + 1
-        /\ UNCHANGED <<hasUpper, B, fresh, view, lowers, upraw, preup, digests, exp, lastop, div, nfail>>
+        /\ UNCHANGED <<hasUpper, B, fresh, view, lowers, upraw, preup, digests, exp, lastop, div, nfail, overwh>>
 Next == Step \/ Done
 Spec == Init /\ [][Next]_vars
 =============================================================================
